@@ -167,3 +167,32 @@ case("c16-keygen-salt-hashed-after", "C16", CS, "            salt = cls.xmd_hash
      "            prk = hkdf_extract(salt, IKM + b\"\\x00\")\n            salt = cls.xmd_hash_function(salt).digest()")
 case("c16-twin-loop-var", "C16", HASH, "    for i in range(0, n):\n        # Concatenate (T(i) || info || i)\n        text = previous + info + bytes([i + 1])",
      "    for j in range(1, n + 1):\n        text = previous + info + bytes([j])", expect="silent")
+
+SWU = "py_ecc/optimized_bls12_381/optimized_swu.py"
+OFE = "py_ecc/fields/optimized_field_elements.py"
+FE = "py_ecc/fields/field_elements.py"
+OPAIR = "py_ecc/optimized_bls12_381/optimized_pairing.py"
+# ---------------------------------------------------------------- C20
+case("c20-alias-constant-horner", "C20", SWU, "    mapped_values = [FQ2.zero(), FQ2.zero(), FQ2.zero(), FQ2.zero()]\n    z_powers = [z, z**2, z**3]",
+     "    mapped_values = POSITIVE_EIGHTH_ROOTS_OF_UNITY\n    mapped_values = list(mapped_values) if False else ETAS\n    z_powers = [z, z**2, z**3]")
+case("c20-etas-reverse", "C20", SWU, "    etas = ETAS\n", "    etas = ETAS\n    etas.reverse()\n")
+case("c20-module-cache", "C20", "py_ecc/bls/g2_primitives.py", "def subgroup_check(P: Optimized_Point3D[Optimized_Field]) -> bool:\n    return is_inf(multiply(P, curve_order))",
+     "_SC_CACHE = {}\n\n\ndef subgroup_check(P: Optimized_Point3D[Optimized_Field]) -> bool:\n    k = repr(P[0])\n    if k not in _SC_CACHE:\n        _SC_CACHE[k] = is_inf(multiply(P, curve_order))\n    return _SC_CACHE[k]")
+case("c20-imul-on-fqp", "C20", OFE, "    def __rmul__(self: T_FQP, other: Union[int, T_FQP]) -> T_FQP:\n        return self * other",
+     "    def __rmul__(self: T_FQP, other: Union[int, T_FQP]) -> T_FQP:\n        return self * other\n\n    def __imul__(self: T_FQP, other: Union[int, T_FQP]) -> T_FQP:\n        r = self * other\n        self.coeffs = r.coeffs\n        return self")
+case("c20-inplace-coeff-update", "C20", OFE, "        return type(self)([-c for c in self.coeffs])\n\n    @cached_property",
+     "        b = self.coeffs\n        b = self.modulus_coeffs if False else b\n        self.coeffs = tuple(-c for c in b)\n        return self\n\n    @cached_property")
+case("c20-lru-cache", "C20", "py_ecc/bls/hash_to_curve.py", "def map_to_curve_G2(u: FQ2) -> G2Uncompressed:", "@lru_cache(maxsize=128)\ndef map_to_curve_G2(u: FQ2) -> G2Uncompressed:",
+     more=[("py_ecc/bls/hash_to_curve.py", "from typing import (\n    Tuple,\n)", "from functools import (\n    lru_cache,\n)\nfrom typing import (\n    Tuple,\n)", 1)])
+case("c20-random-nonce", "C20", "py_ecc/secp256k1/secp256k1.py", "import hashlib\nimport hmac\n", "import hashlib\nimport hmac\nimport os\n")
+case("c20-mutable-default", "C20", "py_ecc/bls/hash.py", "def xor(a: bytes, b: bytes) -> bytes:", "def xor(a: bytes, b: bytes, scratch: list = []) -> bytes:")
+case("c20-param-list-mutated", "C20", "py_ecc/utils.py", "    temp = [x for x in a]\n    o = [0 for x in a]\n    for i in range(dega - degb, -1, -1):\n        o[i] += int(temp[degb + i] / b[degb])",
+     "    temp = a\n    o = [0 for x in a]\n    for i in range(dega - degb, -1, -1):\n        o[i] += int(temp[degb + i] / b[degb])")
+case("c20-exptable-written", "C20", OPAIR, "def exp_by_p(x: FQ12) -> FQ12:\n    return sum(", "def exp_by_p(x: FQ12) -> FQ12:\n    exptable[0] = FQ12.one()\n    return sum(")
+case("c20-set-iteration", "C20", CS, "        if len(messages) != len(set(messages)):  # Messages are not unique\n            return False",
+     "        if len(messages) != len(set(messages)):  # Messages are not unique\n            return False\n        messages = list(set(messages))")
+case("c20-global-counter", "C20", "py_ecc/bls/hash.py", "def sha256(x: bytes) -> bytes:\n    return hashlib.sha256(x).digest()",
+     "_CALLS = 0\n\n\ndef sha256(x: bytes) -> bytes:\n    global _CALLS\n    _CALLS += 1\n    return hashlib.sha256(x).digest()")
+case("c20-twin-local-copy", "C20", SWU, "    etas = ETAS\n", "    etas = list(ETAS)\n    etas.reverse()\n    etas.reverse()\n", expect="silent")
+case("c20-twin-helper-fills-fresh", "C20", "py_ecc/bls/hash.py", "def sha256(x: bytes) -> bytes:\n    return hashlib.sha256(x).digest()",
+     "def _push(buf: list, v: bytes) -> None:\n    buf.append(v)\n\n\ndef sha256(x: bytes) -> bytes:\n    acc: list = []\n    _push(acc, hashlib.sha256(x).digest())\n    return acc[0]", expect="silent")
